@@ -176,17 +176,26 @@ impl<'p, 'a> Evaluator<'a, 'p> {
                 limit: verif_limit,
             });
         }
-        #[cfg(rsjsonnet_verif)]
         if let Err(e) = this.run() {
-            let verif_frames = this.stack_trace_len;
-            crate::verif::emit(|| crate::verif::Event::EvalEnd {
-                ok: false,
-                frames: verif_frames,
-            });
+            // The thunks that were being evaluated must not stay marked as
+            // "in progress", otherwise evaluating them again (in a later
+            // request on the same `Program`) would be reported as an
+            // infinite recursion.
+            for state in this.state_stack.iter() {
+                if let State::GotThunk(thunk) = state {
+                    thunk.restore_pending();
+                }
+            }
+            #[cfg(rsjsonnet_verif)]
+            {
+                let verif_frames = this.stack_trace_len;
+                crate::verif::emit(|| crate::verif::Event::EvalEnd {
+                    ok: false,
+                    frames: verif_frames,
+                });
+            }
             return Err(e);
         }
-        #[cfg(not(rsjsonnet_verif))]
-        this.run()?;
         #[cfg(rsjsonnet_verif)]
         {
             let verif_frames = this.stack_trace_len;
@@ -287,7 +296,7 @@ impl<'p, 'a> Evaluator<'a, 'p> {
                             }
                         }
                     }
-                    ThunkState::InProgress => {
+                    ThunkState::InProgress(_) => {
                         #[cfg(rsjsonnet_verif)]
                         crate::verif::emit(|| crate::verif::Event::InfRec {
                             id: thunk.verif_id(),
